@@ -3,11 +3,13 @@
 mod api;
 mod corpus;
 mod ctx;
+mod gen_pp;
 mod gen_sv;
 mod lexer;
 mod mon_facts;
 mod mon_hist;
 mod mon_iter;
+mod mon_pp;
 mod mon_tile;
 mod mutate;
 mod props;
